@@ -50,6 +50,9 @@ def _same_string_probes(dest, title, order):
     return ctx if order > 0 else ctx[::-1]
 
 
+# class-level parse options and formatter state: a table that interrupts a paragraph; a list item ended by a spaced
+# thematic break (the path that toggles the option); highlighted code
+PROBES += ['para\n| h | i |\n|---|---|\n| c | d |\n\nnext\n', '- item\n* * *\n\n- a\n- - -\nb\n| x |\n|---|\n']
 PROBES += _same_string_probes('/q?a=1&region=eu&copy', 'Q&A &copy 2020 \\* &amp', 1)
 PROBES += _same_string_probes('/p?b=2&sect=9&reg', 'R&D &reg 1999 \\_ &lt', -1)
 
@@ -57,7 +60,7 @@ RENDERER_OPS = [
     ('Html', {}), ('Html', {'process_html_tokens': False}), ('Html', {'html_escape_double_quotes': True}),
     ('Markdown', {}), ('Markdown', {'max_line_length': 20}), ('Markdown', {'normalize_whitespace': True}),
     ('LaTeX', {}), ('Ast', {}), ('Toc', {}), ('GithubWiki', {}), ('MathJax', {}), ('Pygments', {}), ('Jira', {}), ('XWiki20', {}),
-    ('Pygments', {'fail_on_unsupported_language': True}),
+    ('Pygments', {'fail_on_unsupported_language': True}), ('Pygments', {'style': 'monokai'}), ('Pygments', {'style': 'default'}),
 ]
 # documents on which an open renderer raises one of the documented refusals in the middle of rendering
 REFUSED = {'Pygments': ['- a\n  ```nosuchlang\n  x\n  ```\n', '> 1. b\n>    ~~~ nosuchlang\n>    y\n>    ~~~\n'],
